@@ -30,6 +30,10 @@ impl<T: CoordsFloat> CMap3<T> {
                 self.beta_transac::<0>(trans, rside)?,
             );
         }
+        // the left face is closed: the right one must close after the same number of darts
+        if lside == ld && rside != rd {
+            abort(LinkError::AsymmetricalFaces(ld, rd))?;
+        }
         // the face was open, so we need to cover the other direction
         // for meshes, we should be working on complete faces at all times,
         // so branch prediction will hopefully save use
@@ -52,6 +56,10 @@ impl<T: CoordsFloat> CMap3<T> {
                     self.beta_transac::<0>(trans, lside)?,
                     self.beta_transac::<1>(trans, rside)?,
                 );
+            }
+            if rside != NULL_DART_ID {
+                // (*)
+                abort(LinkError::AsymmetricalFaces(ld, rd))?;
             }
         }
         // (*): if we land on NULL on one side, the other side should be NULL as well
